@@ -21,6 +21,7 @@ ID = "C18"
 LEVEL = "exploration"
 RULE = __doc__ + " Non-trivial: pairs of distinct programs that the library reports equal or equivalent, plus pairs related by a commuting swap."
 PI = np.pi
+U2 = np.array([[np.cos(0.5), -np.exp(-0.3j) * np.sin(0.5)], [np.exp(0.3j) * np.sin(0.5), np.cos(0.5)]]) * np.exp(0.2j)
 
 LET = [
     ("S(.3)", lambda: ops.Sgate(0.3, 0.0), (0,)),
@@ -39,6 +40,17 @@ LET = [
     ("CX(.3)", lambda: ops.CXgate(0.3), (0, 1)),
     ("CX(.3)", lambda: ops.CXgate(0.3), (1, 0)),
     ("MX", lambda: ops.MeasureHomodyne(0.0), (0,)),
+    # a two-mode gate that is NOT symmetric under exchanging its modes and is not one of the two classes the implementation singles out
+    ("MZ(.3,.7)", lambda: ops.MZgate(0.3, 0.7), (0, 1)),
+    ("MZ(.3,.7)", lambda: ops.MZgate(0.3, 0.7), (1, 0)),
+    # settings of a measurement that are not parameters; measurements of different arity
+    ("MX(sel=.5)", lambda: ops.MeasureHomodyne(0.0, select=0.5), (0,)),
+    ("MX(sel=-1)", lambda: ops.MeasureHomodyne(0.0, select=-1.0), (0,)),
+    ("MF", lambda: ops.MeasureFock(), (0,)),
+    ("MF", lambda: ops.MeasureFock(), (0, 1)),
+    # an array-valued parameter
+    ("I2", lambda: ops.Interferometer(U2), (0, 1)),
+    ("I2", lambda: ops.Interferometer(U2), (1, 0)),
 ]
 
 
@@ -72,7 +84,9 @@ def classify(a, b):
     if sorted(da) == sorted(db):
         return "order"
     if sorted((n.split("(")[0], d, m) for n, d, m in da) == sorted((n.split("(")[0], d, m) for n, d, m in db):
-        return "parameters"
+        return "settings" if any("sel" in n for n, _, _ in da + db) else "parameters"
+    if sorted((n, d) for n, d, m in da) == sorted((n, d) for n, d, m in db):
+        return "arity"
     return "other"
 
 
@@ -87,7 +101,10 @@ def sem(seq):
 
 def same_map(a, b):
     sa, sb = sem(a), sem(b)
-    ok, _ = sa.equal(sb, 1e-9)
+    try:
+        ok, _ = sa.equal(sb, 1e-9)
+    except ValueError:
+        return False  # different numbers of measured outputs: certainly not the same thing
     return ok
 
 
@@ -147,10 +164,13 @@ def work(task):
                         res.violation(f"C18|equivalence|unsound|{why}", f"equivalence([{fmt(a)}], [{fmt(b)}]) is True but the programs compute different maps ({why} differ)", case)
             # reordering commuting commands never changes the verdict
             for a2 in swaps:
-                with warnings.catch_warnings():
-                    warnings.simplefilter("ignore")
-                    v2 = bool(P(a2).equivalence(pb))
-                    v2np = bool(P(a2).equivalence(pb, compare_params=False))
+                try:
+                    with warnings.catch_warnings():
+                        warnings.simplefilter("ignore")
+                        v2 = bool(P(a2).equivalence(pb))
+                        v2np = bool(P(a2).equivalence(pb, compare_params=False))
+                except Exception:  # noqa: BLE001  (a raising comparison was reported above)
+                    continue
                 res.nt += 1
                 if v2 != eqv or v2np != eqv_np:
                     res.violation("C18|equivalence|commuting-swap", f"equivalence([{fmt(a)}], [{fmt(b)}]) = {eqv} but after swapping two commuting commands of the first program it is {v2}", dict(case, a2=list(a2)))
